@@ -64,14 +64,23 @@ func init() {
 		"(*sync.RWMutex).RLock":     mLock,
 		"(*sync.RWMutex).RUnlock":   mUnlock,
 		"math/bits.TrailingZeros32": mTrailingZeros32,
-		"errors.New":                mNewError,
-		"fmt.Errorf":                mNewError,
-		"fmt.Sprintf":               mFreshPure,
-		"fmt.Sprint":                mFreshPure,
-		"fmt.Sprintln":              mFreshPure,
-		"errors.Is":                 mErrorsIs,
-		"(error).Error":             mFreshPure,
-		"encoding/json.Unmarshal":   mHavocPointee(1),
+		"math/bits.Mul64": func(x *Exec, st *State, a []*Val, s *types.Signature, p token.Pos) *Val {
+			// (hi, lo) of the 128-bit product
+			prod := x.sc.defineB(x, "mul128", "(_ BitVec 128)", "(bvmul ((_ zero_extend 64) "+a[0].S+") ((_ zero_extend 64) "+a[1].S+"))")
+			u64 := types.Typ[types.Uint64]
+			return &Val{K: KTuple, T: s.Results(), E: []*Val{
+				scalar(u64, "((_ extract 127 64) "+prod+")", bvSort(64)),
+				scalar(u64, "((_ extract 63 0) "+prod+")", bvSort(64)),
+			}}
+		},
+		"errors.New":              mNewError,
+		"fmt.Errorf":              mNewError,
+		"fmt.Sprintf":             mFreshPure,
+		"fmt.Sprint":              mFreshPure,
+		"fmt.Sprintln":            mFreshPure,
+		"errors.Is":               mErrorsIs,
+		"(error).Error":           mFreshPure,
+		"encoding/json.Unmarshal": mHavocPointee(1),
 		"google.golang.org/protobuf/types/known/anypb.New":   mAnyNew,
 		"context.WithTimeout":                                mContextWith,
 		"context.WithCancel":                                 mContextWith,
